@@ -124,4 +124,7 @@ Example lifetime_nonvacuous :
   exists p, prevotes s 2 = Some p /\ p_submit p = 16%Z /\
             prevotes (snd (step Hx 10 s 19%Z EndBlock)) 2 = Some p /\
             prevotes (snd (step Hx 11 s 24%Z EndBlock)) 2 = None.
-Proof. eexists. repeat split; vm_compute; reflexivity. Qed.
+Proof.
+  exists {| p_hash := Hx 2 1 2; p_submit := 16%Z; p_origin := 9 |}.
+  split; [vm_compute; reflexivity|]. split; [reflexivity|]. split; vm_compute; reflexivity.
+Qed.
